@@ -571,4 +571,117 @@ theorem run_drain {s s' : MuxSt} {tr : List Ev} (h : Nat) (hr : run s tr = some 
       rw [received_cons, List.length_append]; omega
     · cases hr
 
+/-! ### with the repaired `Open` (`cfg.lateClosed`): a closed mux has only closed connections -/
+
+theorem doClose_length (s : MuxSt) : (doClose s).objs.length = s.objs.length := by
+  unfold doClose; split <;> simp [closeHandles_length]
+
+/-- only `openNew` creates an object -/
+theorem step_length {s s' : MuxSt} {ev : Ev} (hs : step s ev = some s')
+    (hno : ∀ id h, ev ≠ .openNew id h) : s'.objs.length = s.objs.length := by
+  cases ev with
+  | openNew id h => exact absurd rfl (hno id h)
+  | read h0 bl bc r =>
+    simp only [Mux.step] at hs
+    (repeat' split at hs) <;> (try cases hs) <;> simp
+  | deliver f =>
+    simp only [Mux.step] at hs
+    (repeat' split at hs) <;> (try cases hs) <;> simp
+  | closeConn h0 =>
+    simp only [Mux.step] at hs
+    (repeat' split at hs) <;> (try cases hs) <;> simp
+  | openReserved => simp only [Mux.step] at hs; cases hs; rfl
+  | openOld id h0 => simp only [Mux.step] at hs; split at hs <;> cases hs; rfl
+  | readerExit => simp only [Mux.step] at hs; split at hs <;> cases hs; rfl
+  | closeMux => simp only [Mux.step] at hs; cases hs; exact doClose_length s
+  | readerFail e =>
+    simp only [Mux.step] at hs; split at hs <;> cases hs
+    simpa using doClose_length (setError s e)
+  | overflow f =>
+    simp only [Mux.step] at hs
+    (repeat' split at hs) <;> (try cases hs)
+    simpa using doClose_length (setError s .overflow)
+  | write h0 p r =>
+    simp only [Mux.step] at hs
+    (repeat' split at hs) <;> (try cases hs) <;> (try rfl)
+    simpa using doClose_length (setError s .wfail)
+
+/-- "a closed mux has only closed connections" -/
+def AllClosed (s : MuxSt) : Prop :=
+  s.closed = true → ∀ (h : Nat) (c : Conn), s.objs[h]? = some c → c.closed = true
+
+theorem step_allClosed {s s' : MuxSt} {ev : Ev} (hlate : s.cfg.lateClosed = true) (hi : Inv s)
+    (hj : AllClosed s) (hs : step s ev = some s') : AllClosed s' := by
+  intro hcl' h c' hc'
+  by_cases hcl : s.closed = true
+  · -- already closed: objects keep their closedness, a new one is born closed
+    by_cases hnew : ∃ id h0, ev = .openNew id h0
+    · obtain ⟨id, h0, rfl⟩ := hnew
+      simp only [Mux.step] at hs
+      split at hs
+      · rename_i hcond
+        cases hs
+        by_cases hlt : h < s.objs.length
+        · simp only [List.getElem?_append_left hlt] at hc'
+          exact hj hcl h c' hc'
+        · have hge : s.objs.length ≤ h := Nat.le_of_not_lt hlt
+          simp only [List.getElem?_append_right hge] at hc'
+          cases hx : h - s.objs.length with
+          | zero => simp [hx] at hc'; subst hc'; simp [hlate, hcl]
+          | succ n => simp [hx] at hc'
+      · cases hs
+    · have hno : ∀ id h0, ev ≠ .openNew id h0 := fun id h0 he => hnew ⟨id, h0, he⟩
+      have hlen := step_length hs hno
+      have hlt : h < s.objs.length := by
+        rw [← hlen]; exact (List.getElem?_eq_some_iff.mp hc').1
+      obtain ⟨c, hc⟩ : ∃ c, s.objs[h]? = some c := ⟨s.objs[h], by simp [hlt]⟩
+      obtain ⟨c1, hc1, st⟩ := step_stable hs hc
+      rw [hc'] at hc1; cases hc1
+      exact st.2.2 (hj hcl h c hc)
+  · -- this step closed the mux: it went through `doClose` on an open mux
+    have hopen : s.closed = false := by simpa using hcl
+    cases ev with
+    | closeMux =>
+      simp only [Mux.step] at hs; cases hs
+      exact doClose_all_closed hi hopen hc'
+    | readerFail e =>
+      simp only [Mux.step] at hs; split at hs <;> cases hs
+      exact doClose_all_closed (hi.setError e) (by simpa using hopen) hc'
+    | overflow f =>
+      simp only [Mux.step] at hs
+      (repeat' split at hs) <;> (try cases hs)
+      exact doClose_all_closed (hi.setError .overflow) (by simpa using hopen) hc'
+    | write h0 p r =>
+      simp only [Mux.step] at hs
+      (repeat' split at hs) <;> (try cases hs) <;> (try simp_all)
+      exact doClose_all_closed (hi.setError .wfail) (by simpa using hopen) hc'
+    | openNew id h0 =>
+      simp only [Mux.step] at hs; split at hs <;> cases hs; simp_all
+    | openOld id h0 => simp only [Mux.step] at hs; split at hs <;> cases hs; simp_all
+    | openReserved => simp only [Mux.step] at hs; cases hs; simp_all
+    | readerExit => simp only [Mux.step] at hs; split at hs <;> cases hs; simp_all
+    | closeConn h0 =>
+      simp only [Mux.step] at hs
+      (repeat' split at hs) <;> (try cases hs) <;> simp_all
+    | deliver f =>
+      simp only [Mux.step] at hs
+      (repeat' split at hs) <;> (try cases hs) <;> simp_all
+    | read h0 bl bc r =>
+      simp only [Mux.step] at hs
+      (repeat' split at hs) <;> (try cases hs) <;> simp_all
+
+theorem run_allClosed {s s' : MuxSt} {tr : List Ev} (hlate : s.cfg.lateClosed = true)
+    (hi : Inv s) (hj : AllClosed s) (hg : bigBuffers tr = true) (hr : run s tr = some s') :
+    AllClosed s' := by
+  induction tr generalizing s with
+  | nil => simp [run] at hr; subst hr; exact hj
+  | cons ev tr ih =>
+    simp only [bigBuffers, List.all_cons, Bool.and_eq_true] at hg
+    simp only [run] at hr
+    split at hr
+    · rename_i s1 h1
+      exact ih (by rw [step_cfg h1]; exact hlate) (hi.step hg.1 h1) (step_allClosed hlate hi hj h1)
+        (by simpa [bigBuffers] using hg.2) hr
+    · cases hr
+
 end Nri.Mux
